@@ -39,6 +39,10 @@ FIXED = [
  ("C09", "shortest_path with weights='one'", "shortest_path(weights='one') raised TypeError (unit-weight lambda takes one argument, called with two)"),
  ("C09", "shortest_path_to_vertex_set with a single target", "shortest_path_to_vertex_set with a one-element target collection raised KeyError: -1 (sentinel passed instead of the target)"),
  ("C09", "build_path offsets the edges", "shortest_path(..., several targets, export_path_mesh=True): polyline edges of the 2nd+ paths indexed the first path's vertices (offset never advanced)"),
+ ("C04", "geogram reader keeps facet_ptr / cell_ptr as user attributes", "a .geogram_ascii volume file with an explicit facet_ptr listing only some facets: load -> save wrote the stale facet_ptr attribute next to the completed face list (7 faces became 9 after the next load)"),
+ ("C04", "a second save of a hexahedral mesh to geogram_ascii writes tetrahedra", "save(hex mesh, .geogram_ascii) raised but left 'adjacent_cell' on the mesh: the second save of the same object succeeded and wrote hexahedra without cell_ptr (loaded as tetrahedra)"),
+ ("C17", "cotangent() derived from cached angles loses the digits of small angles", "with a persistent 'angles' attribute cached, cotangent() used -tan(angle + pi/2): needle angles were rounded away and the cotangent-weighted Tutte embedding missed the weighted mean by up to 1e-5 on meshes stretched by 2^40"),
+ ("C01", "a pre-existing 'border' attribute leaks into the border flags", "with config.display_duplicate_attribute_warning = True a vertex attribute named 'border' that existed before the first border query leaked into is_vertex_on_border / interior_vertices (the flags are written into the attribute handed back by create_attribute)"),
  ("C10", "EdgeMinimalSpanningTree refuses a dense edge attribute", "EdgeMinimalSpanningTree raised 'Acceptable weights are ... Attribute on edges' for weights stored in a dense edge attribute (ArrayAttribute): the argument check named the sparse class only"),
  ("C10", "CellSpanningTree.build_tree_as_polyline reads", "CellSpanningTree.build_tree_as_polyline raised AttributeError once a 'barycenter' attribute existed on the faces (wrong container tested, non-existent accessor called)"),
  ("C11", "KDTree construction terminates", "KDTree construction looped forever when the pivot equals the largest coordinate on every axis (repeated / collinear / clustered points), all three strategies"),
